@@ -20,7 +20,7 @@ func init() {
 	ev.Register(&ev.Check{
 		ID:          "C16",
 		Level:       "exploration",
-		Rule:        "every Check-accepted case of the merged C01/C03/C04/C09 generators and hostile keys, plus an AST-specific family (every rule name with notes, nested or/enum/allOf items, decimal/precision, value and key shortcuts with manual rules, rule lists in 2 orders): the tree returned by GetAST must equal the expected tree computed from the generator's abstract schema: one node per example value in source order with Key, IsKeyShortcut, TokenType, Value, SchemaType, rules with names/values/order/nested items, manual/generated source marks and the note; inherited allOf properties must not appear. Non-trivial = distinct accepted schema with >= 1 rule or child.",
+		Rule:        "every Check-accepted case of the merged C01/C03/C04/C09 generators and hostile keys, plus an AST-specific family (every rule name with notes, nested or/enum/allOf items, decimal/precision, value and key shortcuts with manual rules, rule lists in 2 orders): the tree returned by GetAST (for the canonical spelling and for the same schema aligned with tabs) must equal the expected tree computed from the generator's abstract schema: one node per example value in source order with Key, IsKeyShortcut, TokenType, Value, SchemaType, rules with names/values/order/nested items, manual/generated source marks and the note; inherited allOf properties must not appear. Non-trivial = distinct accepted schema with >= 1 rule or child.",
 		Run:         run,
 		Replay:      replay,
 		QuickBudget: 80 * time.Second,
@@ -54,8 +54,20 @@ func conv(n jlib.ASTNode) astmodel.Node {
 	return out
 }
 
+// tabbed: the same schema aligned with tabs (in front of annotations, comments
+// and commas, at line ends): the tree must not pick up any of these blanks.
+var tabbed = gen.Spelling{EOL: "\n", Indent: "\t", Blank: "\t"}
+
 func evalCase(cs sc.Case) (accepted bool, dir, desc string) {
-	s, r := lib.Check(cs.Spec())
+	accepted, dir, desc = evalSpelled(cs, cs.Spec(), "")
+	if accepted && dir == "" {
+		_, dir, desc = evalSpelled(cs, cs.SpecWith(tabbed), " [aligned with tabs]")
+	}
+	return
+}
+
+func evalSpelled(cs sc.Case, spec lib.SchemaSpec, how string) (accepted bool, dir, desc string) {
+	s, r := lib.Check(spec)
 	if !r.OK {
 		return false, "", ""
 	}
@@ -65,7 +77,7 @@ func evalCase(cs sc.Case) (accepted bool, dir, desc string) {
 		ast = a
 		return err
 	})
-	d := cs.Describe()
+	d := cs.Describe() + how
 	if res.Panic != "" {
 		return true, "panic", fmt.Sprintf("%s: GetAST panics: %s", d, res.Panic)
 	}
